@@ -313,6 +313,18 @@ register(
 )
 
 
+register(
+    "C05",
+    [vh_stage("c05", 16, 16)],
+    "targets: generated programs in every dialect incl. classic plus shipped sources from resources/tests (with their include directories), alternately with and without the optimise flag; each target is compiled "
+    "(A) 5 (thorough 12) times in one process after random histories of prior compilations (other programs and dialects, mutated programs that fail, a strict-mode error) and after ARGNAME_CTR was set to one of 14 values (0, 8, 9, 98, 99, ..., 10^k+-1, usize::MAX/2), "
+    "(B) in 2 (5) fresh processes (new hash seeds), (C) by 2..16 concurrent threads; bytes and symbol tables (keys verbatim, generated-name suffixes _$_<n> canonicalised in values) must equal the first observation; after every compilation the thread's integer-conversion mode is probed. "
+    "Distinct non-trivial = distinct successfully compiled target that consumed >= 1 generated name and was compared under >= 3 counter values and >= 5 hash seedings",
+    min_nontrivial=20,
+    assumptions=["RandomState seeds cannot be chosen: every HashMap instance and every process draws new keys, the evidence reports how many compilations were compared", "targets slower than 1.5 s (quick) / 20 s (thorough) per compilation are skipped"],
+)
+
+
 def evidence(pid, plan, merged, tier, seed, wall, nviol, known_hits):
     c = merged["counters"]
     cov = {
